@@ -436,8 +436,14 @@ def sharded(ctx, reqs, meta):
                 "shard_bits": rng.randrange(0, 2), "hash": "identity",
                 "minishard_index_encoding": rng.choice(["raw", "gzip"]),
                 "data_encoding": rng.choice(["raw", "gzip"]), "preshift_bits": rng.randrange(0, 3)}
-        info = make_info("uint16", 1, "raw", spec)
         strategy = rng.choice(["on disk", "in memory"])
+        if _ == 0:
+            # always present: disk-backed write buffers and two minishards in one shard, so that the length book-keeping
+            # of one minishard's buffer decides where the next one's data is expected
+            spec.update({"minishard_bits": 1, "shard_bits": 0, "preshift_bits": 0, "data_encoding": "raw",
+                         "minishard_index_encoding": "raw"})
+            strategy = "on disk"
+        info = make_info("uint16", 1, "raw", spec)
         tmp = tempfile.mkdtemp(prefix="ngv_c18s_")
         old_tmpdir = tempfile.tempdir
         try:
@@ -504,6 +510,66 @@ def sharded(ctx, reqs, meta):
                     shutil.rmtree(os.path.join(base, "k"), ignore_errors=True)
                     for n in os.listdir(os.path.join(tmp, "t")):
                         shutil.rmtree(os.path.join(tmp, "t", n), ignore_errors=True)
+            # ---- a caller that goes on after a reported failure: the failed chunk is skipped, the others are stored, the
+            # accessor is closed. If close() returns normally, every chunk whose store returned normally must read back
+            # ("everything stored earlier remains readable and unchanged"; a failure must not be silently absorbed) ----
+            def resilient(root):
+                import atexit
+                try:
+                    acc = ShardedFileAccessor(os.path.join(root, "ds"), strategy=strategy) if strategy != "on disk" \
+                        else ShardedFileAccessor(os.path.join(root, "ds"))
+                except (OSError, DataAccessError):
+                    return [], False, []
+                atexit.unregister(acc.close)
+                pio = precomputed_io.PrecomputedIO(info, acc)
+                ok, surfaced = [], []
+                for c in order:
+                    try:
+                        pio.write_chunk(arrays[c], "k", c)
+                        ok.append(c)
+                    except (OSError, DataAccessError):
+                        pass
+                    except Exception as exc:  # noqa
+                        surfaced.append(type(exc).__name__)
+                try:
+                    acc.close()
+                    closed = True
+                except (OSError, DataAccessError):
+                    closed = False
+                except Exception as exc:  # noqa
+                    closed = False
+                    surfaced.append("close:" + type(exc).__name__)
+                return ok, closed, surfaced
+            for k in sites:
+                prim = trace[k][0]
+                err = ERRS[(k + 1) % len(ERRS)]
+                desc = {"accessor": "sharded-file", "sharding": spec, "strategy": strategy, "call": k, "primitive": prim,
+                        "path": trace[k][1], "errno": errno.errorcode[err], "caller": "continues after the failure, then closes"}
+                with Injector(tmp, "fault", k, err) as inj:
+                    ok, closed, surfaced = resilient(tmp)
+                ctx.case(("shard-fault-continue", k, err, json.dumps(spec), strategy))
+                if inj.fired:
+                    ctx.hist("continued_session", ("closed" if closed else "close failed") + f" {len(ok)}/{len(order)} stored")
+                    for name in surfaced:
+                        ctx.oracle_fail(f"an I/O failure in the sharded accessor surfaced as {name}", desc)
+                    if closed:
+                        pio2 = fresh_reader(base)
+                        import atexit
+                        atexit.unregister(pio2.accessor.close)
+                        for c in ok:
+                            cls, got = classify_read(pio2, "k", c)
+                            if cls != "ok" or not np.array_equal(got, arrays[c]):
+                                ctx.oracle_fail("after a reported I/O failure the caller stored the remaining chunks and close() "
+                                                "returned normally, but a chunk whose store returned normally is "
+                                                + ("unreadable (" + cls + ")" if cls != "ok" else "decoded to WRONG voxel values"),
+                                                dict(desc, chunk=list(c), stored_ok=len(ok)),
+                                                key=None)
+                                break
+                    else:
+                        check_shards(ctx, base, info, arrays, desc, must_be_complete=False)
+                shutil.rmtree(os.path.join(base, "k"), ignore_errors=True)
+                for n in os.listdir(os.path.join(tmp, "t")):
+                    shutil.rmtree(os.path.join(tmp, "t", n), ignore_errors=True)
             # ---- reads: every call site of fetch_chunk failing; every prefix of a shard file ----
             session(tmp)
             for c in COORDS:
